@@ -59,10 +59,42 @@ impl<T> VVec<T> {
         self.n == 0
     }
     pub fn get(&self, i: usize) -> Option<&T> {
-        if i < self.n { self.items[i].as_ref() } else { None }
+        // loop counter instead of a (possibly symbolic) array index
+        let mut p = 0;
+        while p < VCAP {
+            if p == i && p < self.n {
+                return self.items[p].as_ref();
+            }
+            p += 1;
+        }
+        None
     }
     pub fn iter(&self) -> Iter<'_, T> {
         Iter { v: self, pos: 0 }
+    }
+    pub fn iter_mut(&mut self) -> IterMut<'_, T> {
+        IterMut { v: self as *mut VVec<T>, pos: 0, _m: core::marker::PhantomData }
+    }
+    pub fn truncate(&mut self, len: usize) {
+        let mut i = 0;
+        while i < VCAP {
+            if i >= len && i < self.n {
+                self.items[i] = None;
+            }
+            i += 1;
+        }
+        if len < self.n {
+            self.n = len;
+        }
+    }
+    pub fn clear(&mut self) {
+        self.truncate(0)
+    }
+    pub fn first(&self) -> Option<&T> {
+        self.get(0)
+    }
+    pub fn last(&self) -> Option<&T> {
+        if self.n == 0 { None } else { self.get(self.n - 1) }
     }
     pub fn contains(&self, x: &T) -> bool
     where
@@ -119,6 +151,31 @@ impl<'a, T> Iterator for Iter<'a, T> {
         } else {
             None
         }
+    }
+}
+pub struct IterMut<'a, T> {
+    v: *mut VVec<T>,
+    pos: usize,
+    _m: core::marker::PhantomData<&'a mut T>,
+}
+impl<'a, T> Iterator for IterMut<'a, T> {
+    type Item = &'a mut T;
+    fn next(&mut self) -> Option<&'a mut T> {
+        let v: &'a mut VVec<T> = unsafe { &mut *self.v };
+        if self.pos < v.n {
+            let p = self.pos;
+            self.pos += 1;
+            v.items[p].as_mut()
+        } else {
+            None
+        }
+    }
+}
+impl<'a, T> IntoIterator for &'a mut VVec<T> {
+    type Item = &'a mut T;
+    type IntoIter = IterMut<'a, T>;
+    fn into_iter(self) -> IterMut<'a, T> {
+        self.iter_mut()
     }
 }
 pub struct IntoIter<T> {
